@@ -25,8 +25,8 @@ CLAIMED = {
    note="Outside MustSucceed (a candidate instant outside the supported range, year outside the rule guard) OutOfRange or the exact content are both admitted. Rules with start = end in every year are outside the judged domain. On zones of the recorded classes K1/K2 a disagreement is the known finding only if the result equals the algorithm layer's (as-implemented) and its tag is one the finding explains.",
    tech="TLA+ spec (Find, Algo) + TLC model checking incl. refinement of the search walk + vectors replayed + TLC trace validation (+ TLAPS proofs of the table walk and the rule window for inputs of any size, thorough)"),
  "C06": dict(cat="model_checking", ref="§C06",
-   text="Gaps are specified per transition (structural definition), results must be a permutation-free match of ValidInstants + Gaps in non-decreasing order of instant, and unique/earliest/latest must be the functions of the returned list the statement describes; exhaustive on the scaled model, sampled beyond, all validated by TLC.",
-   note="As C05. Order among equal instants is unconstrained, as the statement leaves it.",
+   text="Gaps are specified per transition at which the clock jumps (coincident rule instants - all-year DST, an empty DST period - cancel), results must be a permutation-free match of ValidInstants + Gaps in non-decreasing order of instant, and unique/earliest/latest must be the functions of the returned list the statement describes; exhaustive on the scaled model, sampled beyond, all validated by TLC.",
+   note="As C05. Order among equal instants is unconstrained, as the statement leaves it. A genuine defect (a Skipped entry reported at coincident rule instants, e.g. all-year DST) was found and repaired: see known_findings.json 'fixed'.",
    tech="TLA+ spec (Find, Algo) + TLC model checking + vectors replayed + TLC trace validation (+ TLAPS proofs of the table walk and the rule window, thorough)"),
  "C12": dict(cat="model_checking", ref="§C12",
    text="The two time scales are defined from the physical meaning of leap records; TLC checks monotonicity, round trip for non-deleted instants, inserted second sharing, and 'reported transition instant = switch point of the forward lookup' on the scaled model; lookups (forward conversion) and Skipped entries (inverse conversion) on probe zones with random valid tables (both signs, <= 40 records) and the real 27-record table are validated by TLC. Thorough tier: TLAPS proofs of the forward scan and of the repaired inverse conversion for leap tables of any length.",
@@ -37,13 +37,13 @@ CLAIMED = {
    note="With several simultaneous defects any violated clause's error is admitted; with one defect exactly its error.",
    tech="TLA+ spec (Zone validity) + TLC model checking + vectors replayed + TLC trace validation"),
  "C14": dict(cat="model_checking", ref="§C14",
-   text="DtInv (fields = civil(unix + offset) with second 60 carried, week day, year day, total nanoseconds) is checked by TLC on the spec's own constructors for every walked day and is a global invariant of the trace spec: every date-time in every event of every check is tested. Dedicated events: all constructors, projection (instant and ns preserved, fields/type from the target zone), equality/order by (instant, ns) only, refusal of invalid fields and out-of-range instants.",
+   text="DtInv (fields = civil(unix + offset) with second 60 carried, week day, year day, total nanoseconds) is checked by TLC on the spec's own constructors for every walked day and is a global invariant of the trace spec: every date-time in every event of every check is tested. Dedicated events: all constructors, projection (instant and ns preserved, fields/type from the target zone), equality/order by (instant, ns) only, refusal of invalid fields and out-of-range instants. The bounded system model (TzRs.tla: zone, buffer and date-time values carried from call to call) is explored exhaustively and every one of its behaviours is replayed as a client session of the crate with each observation compared (MC_Session).",
    note="Whether from_timespec_and_local must refuse an instant outside the range whose local reading is representable is left open by the statement: both outcomes admitted.",
-   tech="TLA+ spec (DateTime) + TLC model checking + TLC trace validation (global invariant)"),
+   tech="TLA+ spec (DateTime, system model TzRs) + TLC model checking + every behaviour of the bounded system model replayed as a client session + TLC trace validation (global invariant)"),
  "C17": dict(cat="model_checking", ref="§C17",
-   text="The trace spec carries the client's buffer as a state variable across calls: after each find_n(n) the whole buffer must equal 'first min(n,k) results of the allocating search, other slots unchanged (stale entries kept)', count = k, exhaustive iff n >= k, same error, accessors equal when exhaustive. Driven on every (zone, local time) of the scaled model with buffer lengths 0..5 and on seeded zones.",
+   text="The trace spec carries the client's buffer as a state variable across calls: after each find_n(n) the whole buffer must equal 'first min(n,k) results of the allocating search, other slots unchanged (stale entries kept)', count = k, exhaustive iff n >= k, same error, accessors equal when exhaustive. Driven on every (zone, local time) of the scaled model with buffer lengths 0..5 and on seeded zones. The buffer frame is an action property of the system model (TzRs.BufFrame) checked by TLC on all bounded sessions, and each of those sessions is replayed on the crate (MC_Session), stale slots included.",
    note="The allocating search's own result in the same event is the reference list (and is itself judged as in C05/C06).",
-   tech="TLA+ trace spec with buffer state + TLC trace validation + scaled-model vectors"),
+   tech="TLA+ system model with buffer state (action property by TLC) + its behaviours replayed as client sessions + TLC trace validation + scaled-model vectors"),
  "C04": dict(cat="model_checking", ref="§C04",
    text="DST periods are defined by orientation ([S(y),E(y)) for a northern rule, [S(y),E(y+1)) for a southern one) with S/E from declarative day notations; TLC checks the Mm.w.d reading against its arithmetic form on all 420 notations x 400 years, the period laws (start inclusive, end exclusive, no change at New Year) on a rule family, and emits lookups at S(y)-1, S(y), E(y)-1, E(y), New Year +-1 replayed through rule-only zones; seeded accepted rules (all notation pairs, near-coincident days, |time| up to 7 days, whole offset window, corpus-shaped rules) are probed at every start/end instant of three years +-1 s, at New Year and at the edges of the year guard, and validated by TLC. The 12-leaf evaluator of the algorithm layer (Algo.tla) is model-checked to refine the period definition on the rule family (K2 excluded, and reproduced by TLC as a required-to-fail witness). Thorough tier: TLAPS proof of the evaluator for every interleaving rule and every year (S, E, New Year as unconstrained functions; the southern case needs E(y) < S(y) in the current year - exactly K2).",
    note="Rules that do not interleave are outside the statement's quantifier (either type admitted); rules with start = end in every year are unspecified. Known finding K2 (southern rules with coincident start/end) is reported as KNOWN-FINDING.",
